@@ -19,7 +19,20 @@ fn image(head: &[u8], tail: usize) -> ([u8; MAXB], usize) {
 /// outcome of one decoder on a buffer, normalised: 0 = needs more bytes, 1 = protocol error, 2 = value
 pub struct Out { pub kind: u8, pub consumed: usize }
 
+/// production decoder at slice level (`RespCodec::try_parse`, the function behind `parse`): "Incomplete" is
+/// the need-more signal exactly as `parse` maps it
 fn run_codec(bytes: &[u8]) -> (Out, Option<RespValueZeroCopy>) {
+    match RespCodec::verif_try_parse(bytes) {
+        Ok((v, used)) => (Out { kind: 2, consumed: used }, Some(v)),
+        Err(e) => {
+            let inc = e.as_bytes() == b"Incomplete";
+            std::mem::forget(e);
+            (Out { kind: if inc { 0 } else { 1 }, consumed: 0 }, None)
+        }
+    }
+}
+/// production decoder through its buffer API (`RespCodec::parse` on a BytesMut, consuming what it decodes)
+fn run_codec_buffered(bytes: &[u8]) -> (Out, Option<RespValueZeroCopy>) {
     let mut buf = BytesMut::with_capacity(MAXB);
     buf.extend_from_slice(bytes);
     let before = buf.len();
@@ -97,6 +110,22 @@ pub fn bulk(lentext: &'static [u8], declared: Option<i64>, tail: usize) {
     }
     vcheck!(crate::vs::alloc_ok(), "alloc:bounded by buffer");
     std::mem::forget((vc, vp));
+}
+
+/// the buffer API agrees with the slice-level decoder: same verdict, and it consumes exactly what was decoded
+pub fn buffered_agrees(lentext: &'static [u8], tail: usize) {
+    let mut head = [0u8; 32];
+    head[0] = b'$';
+    head[1..1 + lentext.len()].copy_from_slice(lentext);
+    head[1 + lentext.len()] = b'\r';
+    head[2 + lentext.len()] = b'\n';
+    let hl = 3 + lentext.len();
+    let (b, n) = image(&head[..hl], tail);
+    let (o1, v1) = run_codec(&b[..n]);
+    let (o2, v2) = run_codec_buffered(&b[..n]);
+    vcheck!(o1.kind == o2.kind, "buffer:parse() and the slice decoder disagree on the verdict");
+    vcheck!(o1.consumed == o2.consumed, "buffer:parse() consumes a different number of bytes than it decoded");
+    std::mem::forget((v1, v2));
 }
 
 /// `+`/`-`/`:` line: type byte + `tail` symbolic bytes. Reference: the line ends at the first "\r\n" pair.
@@ -200,8 +229,8 @@ pub fn array(lentext: &'static [u8], declared: Option<i64>, nelem: usize, partia
 pub fn prefix_stable_bulk(cut: usize) {
     let head = [b'$', b'2', b'\r', b'\n'];
     let (b, n) = image(&head, 5);
-    let (o1, v1) = run_codec(&b[..cut]);
-    let (o2, v2) = run_codec(&b[..n]);
+    let (o1, v1) = run_codec_buffered(&b[..cut]);
+    let (o2, v2) = run_codec_buffered(&b[..n]);
     if o1.kind == 2 {
         vcheck!(o2.kind == 2 && o2.consumed == o1.consumed, "prefix:value on a prefix stays the same value on the whole");
     }
